@@ -1159,7 +1159,8 @@ public:
 
     /// Sets the suffix value.
     void SetValue(int index, T value) {
-      suffix_.set_value(index, value);
+      if (index < suffix_.num_values())   // e.g., an objective suffix
+        suffix_.set_value(index, value);  // of a model without objectives
     }
   };
 
